@@ -201,6 +201,9 @@ def check(ctx):
             continue
         ops = [("compose", lambda: k1.compose(k2, rng.sample(c1["o"] + c2["o"], 1) if rng.random() < 0.3 else None)),
                ("quotient", lambda: k1.quotient(k2)), ("merge", lambda: k1.merge(k2)), ("refines", lambda: k1 <= k2),
+               # simplify=False: the eliminations then work on the operands' own lists (no copy made by a simplification)
+               ("compose_nosimplify", lambda: k1.compose(k2, None, False)), ("quotient_nosimplify", lambda: k1.quotient(k2, None, False)),
+               ("quotient_rev_nosimplify", lambda: k2.quotient(k1, None, False)),
                ("rename", lambda: k1.rename_variable(Var(rng.choice(c1["i"] + c1["o"])), Var(rng.choice(c1["i"] + c1["o"] + ["n"])))),
                ("optimize", lambda: k1.optimize(rng.choice(c1["i"] + c1["o"]), True)),
                ("bounds", lambda: k1.get_variable_bounds(rng.choice(c1["i"] + c1["o"])))]
